@@ -206,7 +206,7 @@ fn main() {
     let mut cells: Vec<CellDef> = vec![];
     let w = if t { 64 } else { 8 };
     for u in unaries() {
-        let low = if t { 7 } else { 10 };
+        let low = if t { 5 } else { 10 };
         let sp = if full && t {
             Space::all(32)
         } else {
